@@ -17,10 +17,12 @@ package main
 //	  ftext = <bits-hex>:<text-hex>,…        regex = <subj-hex>:<pat-hex>:<T|F|X>,…
 //	result : <tree> <outcome>
 //	  tree    = S-expression of node names of the real AST (no positions) | PARSEERR
-//	  outcome = V <value> | E <kind> <operand-name-hex> | A <var-hex> <value> (root is an assignment)
+//	  outcome = V <value> | E <kind> <operand-name-hex> <node: 0|1|self> | A <var-hex> <value> (root is an assignment)
 //	  value   = n | t | f | N<bits-hex> | S<hex> | L(<value>,…)
 
 import (
+	"crypto/sha1"
+	"encoding/hex"
 	"fmt"
 	"go/ast"
 	goparser "go/parser"
@@ -118,31 +120,67 @@ func c03ErrKind(e error) (string, bool) {
 	return "Other", false
 }
 
-var c03IdentDetail = regexp.MustCompile(`^([A-Za-z][A-Za-z0-9]*)=`)
+// c03FindParent returns the node of the tree that has n among its children, and the index.
+func c03FindParent(tree, n *parser.ASTNode) (*parser.ASTNode, int) {
+	if tree == nil {
+		return nil, -1
+	}
+	for i, c := range tree.Children {
+		if c == n {
+			return tree, i
+		}
+		if p, k := c03FindParent(c, n); p != nil {
+			return p, k
+		}
+	}
+	return nil, -1
+}
 
-func c03Outcome(v interface{}, err error) string {
+// c03Outcome: V <value> | E <kind> <named operand, hex> <node>
+//
+//	named operand: the text of the token of the operand the Detail was built from (for an
+//	identifier the Detail is name=value: the value part is message text and is cut off — decided
+//	by the Identifier flag of the operands' tokens, not by the look of the text)
+//	node: which operand the error is ATTACHED to (RuntimeError.Node): its index among the children
+//	of the operator that raised the error, or "self" for the operator itself
+func c03Outcome(tree *parser.ASTNode, v interface{}, err error) string {
 	if err != nil {
 		if re, ok := err.(*util.RuntimeError); ok {
 			k, names := c03ErrKind(re.Type)
+			parent, idx := c03FindParent(tree, re.Node)
+			node := "self"
+			if parent != nil && !(k == "RuntimeError" && re.Node != nil && re.Node.Name == parser.NodeMODINT) {
+				node = strconv.Itoa(idx)
+			}
 			if !names {
-				return "E " + k + " -"
+				return "E " + k + " - " + node
 			}
-			// the operand the error names: token text, or name=value for identifiers
-			// (the value part is message text; string operands of the universe contain no '=')
 			name := re.Detail
-			if m := c03IdentDetail.FindStringSubmatch(name); m != nil {
-				name = m[1]
+			if parent != nil {
+				found := false
+				for _, c := range parent.Children {
+					if c.Token != nil && !c.Token.Identifier && re.Detail == c.Token.Val {
+						found = true
+					}
+				}
+				if !found {
+					for _, c := range parent.Children {
+						if c.Token != nil && c.Token.Identifier && strings.HasPrefix(re.Detail, c.Token.Val+"=") {
+							name = c.Token.Val
+						}
+					}
+				}
 			}
-			return "E " + k + " " + hx(name)
+			return "E " + k + " " + hx(name) + " " + node
 		}
-		return "E Other -"
+		return "E Other - self"
 	}
 	return "V " + c03Value(v, 0)
 }
 
 // c03NodeNames: node kind (by constant, not by its text) -> canonical name
 var c03NodeNames = map[string]string{
-	parser.NodeSTRING: "str", parser.NodeNUMBER: "num", parser.NodeIDENTIFIER: "ident", parser.NodeLIST: "list",
+	parser.NodeSTRING: "str", parser.NodeNUMBER: "num", parser.NodeIDENTIFIER: "ident", parser.NodeLIST: "list", parser.NodeSTATEMENTS: "statements",
 	parser.NodeGEQ: "geq", parser.NodeLEQ: "leq", parser.NodeNEQ: "neq", parser.NodeEQ: "eq", parser.NodeGT: "gt", parser.NodeLT: "lt",
 	parser.NodePLUS: "plus", parser.NodeMINUS: "minus", parser.NodeTIMES: "times", parser.NodeDIV: "div",
 	parser.NodeDIVINT: "divint", parser.NodeMODINT: "modint", parser.NodeASSIGN: "assign",
@@ -217,6 +255,12 @@ func c03ExecEnvs(src string, tables bool, scopes []parser.Scope) (r c03Run) {
 		return
 	}
 	r.tree = c03Tree(tree)
+	if c03NestedAssign(tree) {
+		// an assignment anywhere but `name := <expression without assignment>` as the whole
+		// program: outside the fragment (effects); only the tree is compared
+		r.outcome = "NESTED-ASSIGN"
+		return
+	}
 	if err = tree.Runtime.Validate(); err != nil {
 		r.outcome = "INVALID"
 		return
@@ -257,10 +301,30 @@ func c03ExecEnvs(src string, tables bool, scopes []parser.Scope) (r c03Run) {
 			outs = append(outs, "A "+hx(name)+" "+c03Value(val, 0))
 			continue
 		}
-		outs = append(outs, c03Outcome(v, err))
+		outs = append(outs, c03Outcome(tree, v, err))
 	}
 	r.outcome = strings.Join(outs, "|")
 	return
+}
+
+func c03HasAssign(n *parser.ASTNode) bool {
+	if n.Name == parser.NodeASSIGN {
+		return true
+	}
+	for _, c := range n.Children {
+		if c03HasAssign(c) {
+			return true
+		}
+	}
+	return false
+}
+
+func c03NestedAssign(tree *parser.ASTNode) bool {
+	if tree.Name == parser.NodeASSIGN && len(tree.Children) == 2 && tree.Children[0].Name == parser.NodeIDENTIFIER &&
+		len(tree.Children[0].Children) == 0 {
+		return c03HasAssign(tree.Children[1])
+	}
+	return c03HasAssign(tree)
 }
 
 // ---- environments of the multi-evaluation cases: <name>=<value>;… with canonical values
@@ -315,41 +379,54 @@ func c03EnvScope(env string) parser.Scope {
 	return vs
 }
 
-// c03PayloadEnvs: payload of a multi-evaluation case: "M " + the usual fields (tables = union over
-// the environments, each collected on a FRESH parse) + the environments joined by "|".
+// c03Case describes one case for the payload builder.
+type c03Case struct {
+	src      string
+	envs     []string // multi-evaluation: the environments (nil: the fixed environment, one evaluation)
+	intended []string // the token texts the generator wrote (nil: not known)
+	group    string   // cases of one group must give the same tree and outcome (layout / spelling variants)
+}
+
+func c03Payload(src string) string { return c03PayloadOf(c03Case{src: src}) }
+
 func c03PayloadEnvs(src string, envs []string) string {
-	base := strings.Fields(c03PayloadWith(src, func() []parser.Scope {
+	return c03PayloadOf(c03Case{src: src, envs: envs})
+}
+
+// c03PayloadOf: space separated key=value fields
+//
+//	src=<hex> conv=<i,i,i> num=<text-hex:bits,…|-> ft=<bits:text-hex,…|-> re=<subj:pat:T|F|X,…|->
+//	[env=<env>|<env>…] [int=<hex,hex,…>] [grp=<id>]
+//
+// The model lexes src itself (Lean lexer model); the real lexer is used here only to find the
+// number texts whose float64 bits (strconv.ParseFloat) are shipped.
+func c03PayloadOf(c c03Case) string {
+	src := c.src
+	nums := map[string]uint64{}
+	addNum := func(t string) {
+		if f, err := strconv.ParseFloat(t, 64); err == nil {
+			nums[t] = math.Float64bits(f)
+		}
+	}
+	for _, t := range parser.LexToList("t", src) {
+		if t.ID == parser.TokenNUMBER {
+			addNum(t.Val)
+		}
+	}
+	for _, t := range c.intended {
+		if len(t) > 0 && t[0] >= '0' && t[0] <= '9' {
+			addNum(strings.ToLower(t))
+		}
+	}
+	scopes := func() []parser.Scope {
+		if c.envs == nil {
+			return []parser.Scope{c03Scope()}
+		}
 		var l []parser.Scope
-		for _, e := range envs {
+		for _, e := range c.envs {
 			l = append(l, c03EnvScope(e))
 		}
 		return l
-	}, envs))
-	return "M " + strings.Join(base, " ") + " " + strings.Join(envs, "|")
-}
-
-func c03Payload(src string) string {
-	return c03PayloadWith(src, func() []parser.Scope { return []parser.Scope{c03Scope()} }, nil)
-}
-
-func c03PayloadWith(src string, scopes func() []parser.Scope, envs []string) string {
-	toks := parser.LexToList("t", src)
-	var tl []string
-	for _, t := range toks {
-		name, ok := c03TokNames[t.ID]
-		if !ok {
-			name = fmt.Sprintf("OTHER%d", int(t.ID))
-		}
-		s := name + ":" + hx(t.Val) + ":" + strconv.Itoa(t.Lline)
-		if t.ID == parser.TokenNUMBER {
-			f, err := strconv.ParseFloat(t.Val, 64)
-			if err != nil {
-				s += ":ERR"
-			} else {
-				s += fmt.Sprintf(":%016x", math.Float64bits(f))
-			}
-		}
-		tl = append(tl, s)
 	}
 	run := c03Run{floats: map[uint64]bool{}, regex: map[[2]string]bool{}}
 	func() {
@@ -369,7 +446,7 @@ func c03PayloadWith(src string, scopes func() []parser.Scope, envs []string) str
 	for _, f := range c03EnvFloats {
 		run.floats[math.Float64bits(f)] = true
 	}
-	for _, e := range envs {
+	for _, e := range c.envs {
 		if e == "-" {
 			continue
 		}
@@ -378,6 +455,11 @@ func c03PayloadWith(src string, scopes func() []parser.Scope, envs []string) str
 			c03CollectFloats(v, run.floats, 0)
 		}
 	}
+	var nl []string
+	for t, b := range nums {
+		nl = append(nl, fmt.Sprintf("%s:%016x", hx(t), b))
+	}
+	sort.Strings(nl)
 	var fl []string
 	for b := range run.floats {
 		fl = append(fl, fmt.Sprintf("%016x:%s", b, hx(fmt.Sprint(math.Float64frombits(b)))))
@@ -402,7 +484,31 @@ func c03PayloadWith(src string, scopes func() []parser.Scope, envs []string) str
 		}
 		return strings.Join(xs, ",")
 	}
-	return hx(src) + " " + conv + " " + strings.Join(tl, ";") + " " + join(fl) + " " + join(rl)
+	p := "src=" + hx(src) + " conv=" + conv + " num=" + join(nl) + " ft=" + join(fl) + " re=" + join(rl)
+	if c.envs != nil {
+		p += " env=" + strings.Join(c.envs, "|")
+	}
+	if c.intended != nil {
+		var it []string
+		for _, t := range c.intended {
+			it = append(it, hx(t))
+		}
+		p += " int=" + join(it)
+	}
+	if c.group != "" {
+		p += " grp=" + c.group
+	}
+	return p
+}
+
+// c03Field returns the value of key in a payload
+func c03Field(payload, key string) (string, bool) {
+	for _, f := range strings.Fields(payload) {
+		if strings.HasPrefix(f, key+"=") {
+			return f[len(key)+1:], true
+		}
+	}
+	return "", false
 }
 
 // ---------------------------------------------------------------- registration
@@ -413,16 +519,16 @@ func init() {
 		Gen:     c03Gen,
 		Run: func(payload string) string {
 			var r c03Run
-			if strings.HasPrefix(payload, "M ") {
-				f := strings.Fields(payload)
+			srcHex, _ := c03Field(payload, "src")
+			if envs, ok := c03Field(payload, "env"); ok {
 				var scopes []parser.Scope
-				for _, e := range strings.Split(f[len(f)-1], "|") {
+				for _, e := range strings.Split(envs, "|") {
 					scopes = append(scopes, c03EnvScope(e))
 				}
-				r = c03ExecEnvs(unhx(f[1]), false, scopes)
+				r = c03ExecEnvs(unhx(srcHex), false, scopes)
 				CountRun("multi-evaluation of one AST")
 			} else {
-				r = c03Exec(unhx(strings.SplitN(payload, " ", 2)[0]), false)
+				r = c03Exec(unhx(srcHex), false)
 			}
 			switch {
 			case r.tree == "PARSEERR":
@@ -492,9 +598,11 @@ var c03PreOps = []string{"-", "+", "not"}
 
 // operand universe by kind
 var c03Nums = []string{"0", "1", "2", "3", "7", "0.5", "2.5", "1.50", "10", "100", "0.1", "0.3", "1e+308",
-	"123456789012345678901234567890", "9007199254740993", "a", "n"}
+	"123456789012345678901234567890", "9007199254740993", "a", "n", "5.", "1e+2", "007",
+	"9223372036854775807", "9223372036854775808", "9223372036854774784", "4611686018427387904"}
 var c03Strs = []string{`""`, `"a"`, `"x"`, `"abc"`, `"10"`, `"9"`, `"1"`, `"true"`, `"A"`, `" "`, `"a.c"`, `"("`,
-	`"^a"`, `"[1 x]"`, `'x'`, `r"x"`, `"<nil>"`, `"-2.5"`, "b", "s"}
+	`"^a"`, `"[1 x]"`, `'x'`, `r"x"`, `"<nil>"`, `"-2.5"`, "b", "s",
+	`"a=b"`, `"x=1"`, `"a=b=c"`, `"a\"b"`, `"a\\b"`, `"tab\there"`, `"é"`, `"日本"`, `'it"s'`, `"\u00e9"`, `r"a\b"`, `"=="`}
 var c03Bools = []string{"true", "false", "TRUE", "c", "f"}
 var c03Nulls = []string{"null", "NULL", "d", "u"}
 var c03Lists = []string{"[]", "[1]", `[1, "x"]`, "[[1]]", "[1, 2, 3]", "[null]", "[a, b]", "[true, false]", `["10", 10]`, "l", "m"}
@@ -516,7 +624,14 @@ func c03IsWordTok(t string) bool {
 // blanks / tabs / newlines / nothing between tokens (never gluing two word tokens or two
 // symbol tokens together).
 func c03Join(r *Rand, toks []string, layout bool) string {
+	src, _ := c03JoinW(r, toks, layout)
+	return src
+}
+
+// c03JoinW is c03Join that also returns the token texts as written (keyword spelling varied)
+func c03JoinW(r *Rand, toks []string, layout bool) (string, []string) {
 	var sb strings.Builder
+	written := make([]string, 0, len(toks))
 	for i, t := range toks {
 		if i > 0 {
 			sep := " "
@@ -550,9 +665,52 @@ func c03Join(r *Rand, toks []string, layout bool) string {
 				t = t[:len(t)-1] + strings.ToUpper(t[len(t)-1:])
 			}
 		}
+		written = append(written, t)
 		sb.WriteString(t)
 	}
-	return sb.String()
+	return sb.String(), written
+}
+
+// c03SplitToks splits a source text written by this generator into its token texts: string
+// literals (with their quotes / r prefix) are one token, brackets and commas are tokens,
+// everything else is separated by blanks.
+func c03SplitToks(src string) []string {
+	var out []string
+	cur := ""
+	flush := func() {
+		if cur != "" {
+			out = append(out, cur)
+			cur = ""
+		}
+	}
+	for i := 0; i < len(src); i++ {
+		c := src[i]
+		switch {
+		case c == '"' || c == '\'':
+			if cur != "r" {
+				flush()
+			}
+			j := i + 1
+			for j < len(src) && src[j] != c {
+				if src[j] == '\\' && cur != "r" {
+					j++
+				}
+				j++
+			}
+			cur += src[i:min(j+1, len(src))]
+			flush()
+			i = j
+		case c == '[' || c == ']' || c == ',' || c == '(' || c == ')':
+			flush()
+			out = append(out, string(c))
+		case c == ' ' || c == '\n' || c == '\t':
+			flush()
+		default:
+			cur += string(c)
+		}
+	}
+	flush()
+	return out
 }
 
 var c03Keywords = map[string]bool{"and": true, "or": true, "not": true, "like": true, "in": true, "hasprefix": true,
@@ -704,18 +862,51 @@ func c03Gen(g *Gen) {
 		sn = 1
 	}
 	idx := -1
-	emit := func(class string, src string) {
-		if seen[src] {
+	emitCase := func(class string, c c03Case) {
+		key := c.src
+		if c.envs != nil {
+			key = "M " + c.src + " " + strings.Join(c.envs, "|")
+		}
+		if seen[key] {
 			return
 		}
-		seen[src] = true
+		seen[key] = true
 		g.Count(class)
 		idx++
 		if idx%sn != si || idx < start {
 			g.Emit("-")
 			return
 		}
-		g.Emit(c03Payload(src))
+		g.Emit(c03PayloadOf(c))
+	}
+	// directed / malformed text: no intended tokens
+	emit := func(class string, src string) { emitCase(class, c03Case{src: src}) }
+	groupOf := func(src string) string {
+		h := sha1.Sum([]byte(src))
+		return hex.EncodeToString(h[:6])
+	}
+	// a well-formed expression written by the generator with single blanks: its intended tokens are
+	// shipped (the model's lexer must find exactly them); nvar layout / keyword-spelling variants of
+	// it join its group (same tree and outcome required, checked on the Go results alone)
+	emitI := func(class string, src string, nvar int) {
+		toks := c03SplitToks(src)
+		grp := ""
+		if nvar > 0 {
+			grp = groupOf(src)
+		}
+		emitCase(class, c03Case{src: src, intended: toks, group: grp})
+		for k := 0; k < nvar; k++ {
+			v, written := c03JoinW(r, toks, true)
+			if v != src {
+				emitCase(class+"-layout", c03Case{src: v, intended: written, group: grp})
+			}
+		}
+	}
+	oneIn := func(n int) int {
+		if r.Intn(n) == 0 {
+			return 1
+		}
+		return 0
 	}
 	// corpus: inputs of the repaired defects and directed cases
 	for _, s := range []string{`5 % 0`, `5 % 0.5`, `[1] == [1]`, `[1] in [[1]]`, `[1] != [2]`, `(1 + "a") like "x"`, `1 like "("`,
@@ -725,8 +916,24 @@ func c03Gen(g *Gen) {
 		`[0/0] == [0/0]`, `1 in 5`, `1 in l`, `"x" notin l`, `true or (1 + "a")`, `1.50 and true`, `1 hasprefix 1`, `[1, "x"] hasprefix "[1"`,
 		`null == d`, `u == null`, `1 == 1.0`, `"1" == 1`, "1 +\n2", "1\n+ 2", "(\n1\n)", `-(-(1))`, `- - 1`, `not not true`, `+ "a"`, `- null`, `not 1`,
 		`1 in [1 2]`, `[1,] == [1]`, `1 <= 2 <= 3`, `1 + 2 > 2 and 3 * 1 == 3 or false`, `9007199254740993 % 9007199254740992`,
-		`123456789012345678901234567890 // 1`, `1 - -1`, `1 notin [] and not false`, `a a`, `1 +`, `(1`, `1 )`, `[1`, `* 2`} {
+		`123456789012345678901234567890 // 1`, `1 - -1`, `1 notin [] and not false`, `a a`, `1 +`, `(1`, `1 )`, `[1`, `* 2`,
+		`"a=b" + 1`, `1 + "a=b"`, `"x=1" and true`, `1 in "a=b"`, `"a=b" < 1`, `"é" + 1`, `"a\"b" * 2`, `- "tab\there"`,
+		`true and     5`, `1 in    5`, `true or (2)`, `c and "x"`, `1 notin "l"`, `(1 < 2) and (1 + 1)`,
+		`9223372036854775807 % 10`, `9223372036854775808 % 10`, `9223372036854774784 % 10`, `- 9223372036854775808 % 10`,
+		`(1/0) % 2`, `2 % (1/0)`, `(0/0) % 2`, `(-1/0) % 2`, `7 % 9223372036854775808`, `0 * -1`, `0 * -1 == 0`, `1 / (0 * -1)`,
+		`[0 * -1] == [0]`, `(0/0) == (0/0)`, `(0/0) != (0/0)`, `(0/0) < 1`, `(0/0) >= 1`, `1/0 > 1e+308`, `"" + (1/0)`, `(1/0) hasprefix "+"`,
+		"1\n(2)", "1\n[2]", "1\nnot true", "a\n[1]", "1\n-2", "1\n2", "1 2", "1 (2)", "a\n(1)", "(1\n2)", "[1\n2]", "[1\n-2]", "1 +\n2\n3 *\n4", "true\n1 +", "1 +\n\n\n2"} {
 		emit("corpus", s)
+	}
+	// number literal forms (accepted and rejected ones), alone and inside an expression
+	for _, n := range []string{"1e5", "1e+5", "1E+5", "1e+05", "1.2.3", "5.", ".5", "1e+999", "1e+308", "1e+309", "0x10", "1_000", "007", "1-2", "1 -2",
+		"1 - 2", "2e+", "1e+5e+5", "1..2", "1.e+5", "12a", "1e", "1e+", "\u0661\u0662", "1\u0662", "1.5.", "1e-5", "1e+-5", "0.0000001", "1.0e+2", "1e+5.5", "4e+2e",
+		"100000000000000000000000", "1.7976931348623157e+308", "1.7976931348623159e+308", "0e+0", "00", "0.", "1.e", "3e+1x"} {
+		emit("number-form", n)
+		emit("number-form", n+" + 1")
+		emit("number-form", "2 * "+n)
+		emit("number-form", "[ "+n+" ]")
+		emit("number-form", "- "+n)
 	}
 	// every binary operator on every pair of literal kinds, several values
 	for _, op := range c03BinOps {
@@ -737,7 +944,7 @@ func c03Gen(g *Gen) {
 					n = 8
 				}
 				for k := 0; k < n; k++ {
-					emit("single-op", A[r.Intn(len(A))]+" "+op+" "+B[r.Intn(len(B))])
+					emitI("single-op", A[r.Intn(len(A))]+" "+op+" "+B[r.Intn(len(B))], oneIn(4))
 				}
 			}
 		}
@@ -745,7 +952,7 @@ func c03Gen(g *Gen) {
 	for _, p := range c03PreOps {
 		for _, A := range c03Kinds {
 			for _, a := range A {
-				emit("single-prefix", p+" "+a)
+				emitI("single-prefix", p+" "+a, oneIn(4))
 			}
 		}
 	}
@@ -758,20 +965,78 @@ func c03Gen(g *Gen) {
 	}
 	rot := 0
 	forms := []string{"A o B p C", "( A o B ) p C", "A o ( B p C )"}
+	// typed operands: per operator the kinds of its operands and of its result (0 num 1 str 2 bool 4 list 5 any)
+	opKinds := func(o string) (int, int, int) {
+		switch o {
+		case "+", "-", "*", "/", "//", "%":
+			return 0, 0, 0
+		case ">=", "<=", ">", "<":
+			return 0, 0, 2
+		case "==", "!=":
+			return 5, 5, 2
+		case "and", "or":
+			return 2, 2, 2
+		case "like", "hasprefix", "hassuffix":
+			return 1, 1, 2
+		}
+		return 5, 4, 2 // in, notin
+	}
+	typedVals := [6][]string{{"1", "2", "3", "7", "0.5", "10", "2.5", "100"}, {`"a"`, `"abc"`, `"x"`, `"ab"`, `"10"`, `"^a"`, `"b"`},
+		{"true", "false"}, {"null"}, {`[1, "x"]`, "[1, 2, 3]", `["a", true]`, "[]", "[2, [1]]"}, {"1", `"a"`, "true", "2", `"x"`}}
+	tv := func(k int) string { return typedVals[k][r.Intn(len(typedVals[k]))] }
+	fit := func(want, have int) int { // the kind to generate where an operand of kind want is needed
+		if want == 5 {
+			return have
+		}
+		return want
+	}
+	nTyped := 2
+	if g.Thorough() {
+		nTyped = 6
+	}
 	for _, o1 := range c03BinOps {
 		for _, o2 := range c03BinOps {
-			for _, form := range forms {
+			l1, r1, _ := opKinds(o1)
+			l2, r2, _ := opKinds(o2)
+			for fi, form := range forms {
 				ts := triples
 				for k := 0; k < nrot; k++ {
 					ts = append(ts, [3]string{c03Reps[rot%6], c03Reps[(rot/6)%6], c03Reps[(rot/36)%6]})
 					rot += 7
 				}
-				for _, t := range ts {
+				// value-producing operands for both possible shapes: (A o1 B) o2 C and A o1 (B o2 C)
+				for k := 0; k < nTyped; k++ {
+					if fi != 2 {
+						ts = append(ts, [3]string{tv(fit(l1, 0)), tv(fit(r1, 0)), tv(fit(r2, 0))})
+					}
+					if fi != 1 {
+						ts = append(ts, [3]string{tv(fit(l1, 0)), tv(fit(l2, 0)), tv(fit(r2, 0))})
+					}
+				}
+				for ti, t := range ts {
 					src := strings.NewReplacer("A", t[0], "B", t[1], "C", t[2], "o", o1, "p", o2).Replace(form)
-					emit("pair", src)
+					nv := 0
+					if ti == 0 || ti == len(ts)-1 || g.Thorough() {
+						nv = 1 // layout on the exhaustive pair set
+					}
+					emitI("pair", src, nv)
 				}
 			}
 		}
+	}
+	// the assignment as one of the operators of a pair (the tree is compared; evaluation only for `r := …` alone)
+	for _, o := range c03BinOps {
+		for _, t := range [][3]string{{"1", "2", "3"}, {"true", "false", "true"}, {"a", "b", "c"}} {
+			emitI("assign-pair", "r := "+t[1]+" "+o+" "+t[2], 1)
+			emitI("assign-pair", "r "+o+" "+t[1]+" := "+t[2], 0)
+			emitI("assign-pair", "r := ( "+t[1]+" "+o+" "+t[2]+" )", 0)
+			emitI("assign-pair", "( r := "+t[1]+" ) "+o+" "+t[2], 0)
+			emitI("assign-pair", "r := s := "+t[2], 0)
+		}
+	}
+	for _, q := range c03PreOps {
+		emitI("assign-pair", q+" r := 1", 0)
+		emitI("assign-pair", "r := "+q+" 1", 0)
 	}
 	// prefix operator with a binary operator
 	pforms := []string{"q A o B", "q ( A o B )", "( q A ) o B", "A o q B", "A o ( q B )", "q q A o B"}
@@ -780,7 +1045,7 @@ func c03Gen(g *Gen) {
 			for _, form := range pforms {
 				for _, t := range triples {
 					src := strings.NewReplacer("A", t[0], "B", t[1], "o", o, "q", q).Replace(form)
-					emit("prefix-pair", src)
+					emitI("prefix-pair", src, oneIn(6))
 				}
 			}
 		}
@@ -794,7 +1059,7 @@ func c03Gen(g *Gen) {
 				for _, form := range tforms {
 					for _, t := range ttr {
 						src := strings.NewReplacer("A", t[0], "B", t[1], "C", t[2], "o", o1, "p", o2, "q", q).Replace(form)
-						emit("prefix-triple", src)
+						emitI("prefix-triple", src, oneIn(12))
 					}
 				}
 			}
@@ -811,7 +1076,7 @@ func c03Gen(g *Gen) {
 				for k := 0; k < nQuad; k++ {
 					t := triples[r.Intn(len(triples))]
 					d := c03Reps[r.Intn(6)]
-					emit("triple", t[0]+" "+o1+" "+t[1]+" "+o2+" "+t[2]+" "+o3+" "+d)
+					emitI("triple", t[0]+" "+o1+" "+t[1]+" "+o2+" "+t[2]+" "+o3+" "+d, oneIn(8))
 				}
 			}
 		}
@@ -834,7 +1099,7 @@ func c03Gen(g *Gen) {
 	// assignment is loosest
 	for _, o := range c03BinOps {
 		for _, t := range triples {
-			emit("assign", "r := "+t[0]+" "+o+" "+t[1])
+			emitI("assign", "r := "+t[0]+" "+o+" "+t[1], 0)
 		}
 	}
 	for _, q := range c03PreOps {
@@ -845,18 +1110,7 @@ func c03Gen(g *Gen) {
 	// variable rebound in between) — the value may depend on the current environment only,
 	// never on an earlier evaluation of the same node (no per-node caching)
 	emitM := func(class, src string, envs []string) {
-		key := "M " + src + " " + strings.Join(envs, "|")
-		if seen[key] {
-			return
-		}
-		seen[key] = true
-		g.Count(class)
-		idx++
-		if idx%sn != si || idx < start {
-			g.Emit("-")
-			return
-		}
-		g.Emit(c03PayloadEnvs(src, envs))
+		emitCase(class, c03Case{src: src, envs: envs})
 	}
 	S := func(v string) string { return "S" + hx(v) }
 	emitM("multi-corpus", "s like p", []string{"s=" + S("banana") + ";p=" + S("^a"), "s=" + S("banana") + ";p=" + S("^b"),
@@ -866,7 +1120,9 @@ func c03Gen(g *Gen) {
 		"s=" + S("b") + ";p=" + S("a") + ";q=" + S("b"), "s=" + S("c") + ";p=" + S("c") + ";q=" + S("c")})
 	mvals := [5][]string{
 		{"N0000000000000000", "N3ff0000000000000", "N4000000000000000", "Nc004000000000000", "N3fe0000000000000", "N4024000000000000",
-			"N4059000000000000", "N7fe1ccf385ebc8a0", "Nbff0000000000000", "N401c000000000000", "N4008000000000000"},
+			"N4059000000000000", "N7fe1ccf385ebc8a0", "Nbff0000000000000", "N401c000000000000", "N4008000000000000",
+			"Nnan", "N7ff0000000000000", "Nfff0000000000000", "N8000000000000000", "N43e0000000000000", "Nc3e0000000000000",
+			"N43dfffffffffffff", "Nc3e0000000000001", "N43d0000000000000"},
 		{S(""), S("a"), S("x"), S("abc"), S("banana"), S("apple"), S("10"), S("9"), S("^a"), S("^b"), S("p{3}"), S("("), S("a.c"), S("true"), S("[1 x]"), S("an")},
 		{"t", "f"},
 		{"n"},
@@ -943,12 +1199,36 @@ func c03Gen(g *Gen) {
 		if r.Intn(12) == 0 {
 			toks = append([]string{"r", ":="}, toks...)
 		}
-		layout := r.Intn(2) == 0
-		cls := "random"
-		if layout {
-			cls = "random-layout"
+		src := strings.Join(toks, " ")
+		if r.Intn(2) == 0 {
+			emitCase("random", c03Case{src: src, intended: toks})
+			continue
 		}
-		emit(cls, c03Join(r, toks, layout))
+		grp := groupOf(src)
+		emitCase("random", c03Case{src: src, intended: toks, group: grp})
+		v, written := c03JoinW(r, toks, true)
+		if v != src {
+			emitCase("random-layout", c03Case{src: v, intended: written, group: grp})
+		}
+	}
+	// several expression statements: a line end before a token that cannot continue the expression
+	// ends the statement (the `left.Token.Lline < n.Token.Lline` branch of the loop); before an
+	// operator it does not
+	nStmts := 1500
+	if g.Thorough() {
+		nStmts = 30000
+	}
+	for i := 0; i < nStmts; i++ {
+		n := 2 + r.Intn(2)
+		var sb strings.Builder
+		for k := 0; k < n; k++ {
+			toks := x.expr([]int{0, 2, 5, 4}[r.Intn(4)], r.Intn(3))
+			if k > 0 {
+				sb.WriteString([]string{"\n", "\n", " \n ", "\n\n", " "}[r.Intn(5)])
+			}
+			sb.WriteString(c03Join(r, toks, r.Intn(3) == 0))
+		}
+		emit("statements", sb.String())
 	}
 }
 
